@@ -83,6 +83,7 @@ class Run:
         self.exhaustive: bool | None = None
         self.known = load_known(pid)
         self.max_violation_reports = 25
+        self.viol_keys: Counter = Counter()
 
     # ------------------------------------------------------------------ reporting API
     def case(self, canon: Any, nontrivial: bool = True, sample: Any = None) -> None:
@@ -105,12 +106,13 @@ class Run:
     def violation(self, key: str, what: str, witness: Any) -> None:
         """Report a refuted instance. ``key`` = mechanism key from the check's classifier."""
         self.counters["violations_total"] += 1
+        self.viol_keys[key] += 1
         if key in self.known:
             hit = self.known_hits.setdefault(key, {"count": 0, "what": what})
             hit["count"] += 1
             return
         self.counters["violations_unlisted"] += 1
-        if len(self.violations) >= self.max_violation_reports:
+        if len(self.violations) >= self.max_violation_reports or self.viol_keys[key] > 3:
             return
         os.makedirs(REPLAY_DIR, exist_ok=True)
         body = {
@@ -139,6 +141,7 @@ class Run:
             "counters": dict(self.counters),
             "info": self.info,
             "violations": self.violations,
+            "viol_keys": dict(self.viol_keys),
             "known_hits": self.known_hits,
             "inconclusive": self.inconclusive,
             "floors": self.floors,
@@ -165,6 +168,7 @@ class Run:
                     else:
                         self.info[k].setdefault(kk, vv)
         self.violations.extend(p["violations"])
+        self.viol_keys.update(p.get("viol_keys", {}))
         for k, h in p["known_hits"].items():
             cur = self.known_hits.setdefault(k, {"count": 0, "what": h["what"]})
             cur["count"] += h["count"]
@@ -205,6 +209,7 @@ class Run:
             "monitor_counters": dict(sorted(self.counters.items())),
             "verdict": verdict,
             "known_findings_observed": {k: v for k, v in sorted(self.known_hits.items())},
+            "violation_keys_observed": dict(sorted(self.viol_keys.items())),
             "inconclusive_reasons": self.inconclusive,
         }
         coverage.update(self.info)
